@@ -1180,6 +1180,186 @@ inline void phaseB(Ctx& C, const std::vector<int>& strings, int maxUsers, const 
   }
 }
 
+// ------------------------------------------------------------------------------------------- phase C: aliasing operands
+// A SIZED operand (string_view, JsonString(p,n,Copied)) that is a prefix view INTO a buffer the library already
+// knows: (held) the buffer of a key / value the document keeps by address, (pool) the buffer of a pooled copied
+// string obtained through the read API, (operand) the source buffer of the operand that stored the string.
+// Same start address, different length.  Oracle: the same history with the operand copied to a fresh buffer at
+// another address must observe identically, plus the absolute lookup / stored-bytes model.
+enum AliasWhere { W_HELD, W_POOL, W_OPERAND, NWHERE };
+static const char* kWhereName[NWHERE] = {"held", "pool", "operand"};
+enum AliasUse { AU_LOOKUP, AU_LOOKUP_WITH_PREFIX, AU_INSERT, AU_VALUE, AU_COMPARE, NALIASUSES };
+static const char* kAliasUseName[NALIASUSES] = {"lookup", "lookupPrefixPresent", "insert", "value", "compare"};
+
+template <class F>
+inline void withSizedOperand(Kind k, const char* base, size_t n, F&& f) {
+  if (k == StringView) { std::string_view sv(base, n); callWith(f, sv); }
+  else { JsonString js(base, n, JsonString::Copied); callWith(f, js); }
+}
+
+struct AliasCase {
+  int sIdx;
+  size_t n;
+  Kind kind;  // StringView or JsCopied
+  AliasWhere where;
+  AliasUse use;
+};
+
+inline RunResult runAlias(const AliasCase& ac, bool aliased) {
+  const std::string& s = alphabet()[size_t(ac.sIdx)].bytes;
+  const std::string p = s.substr(0, ac.n);
+  const bool full = ac.n == s.size();
+  const bool keyDoc = ac.use == AU_LOOKUP || ac.use == AU_LOOKUP_WITH_PREFIX || ac.use == AU_INSERT;
+  Env E;
+  E.operands = {1, 2, ac.sIdx};
+  // buffers that outlive the document
+  std::unique_ptr<char[]> held(new char[s.size() + 1]);
+  memcpy(held.get(), s.c_str(), s.size() + 1);
+  std::unique_ptr<char[]> fresh(new char[ac.n]);  // exactly n bytes, no terminator, another address
+  memcpy(fresh.get(), s.data(), ac.n);
+  LedgerAllocator A;
+  {
+    JsonDocument doc(&A);
+    const char* base = nullptr;
+    // the document gets to know s
+    switch (ac.where) {
+      case W_HELD: {
+        const char* h = held.get();
+        if (keyDoc) doc[h] = 11; else doc["a"] = h;
+        base = h;
+        break;
+      }
+      case W_POOL:
+        if (keyDoc) {
+          doc[s] = 11;
+          for (JsonPair kv : doc.as<JsonObject>()) { base = kv.key().c_str(); break; }
+        } else {
+          doc["a"] = s;
+          base = doc["a"].as<const char*>();
+        }
+        break;
+      case W_OPERAND:
+        withSizedOperand(ac.kind, held.get(), s.size(), [&](auto& whole) {
+          if (keyDoc) doc[whole] = 11; else doc["a"] = whole;
+        });
+        base = held.get();
+        break;
+      default: break;
+    }
+    if (!base) { E.problem("stored-bytes", "the stored string cannot be read back"); base = held.get(); }
+    if (ac.use == AU_LOOKUP_WITH_PREFIX && !full) doc[std::string(p)] = 22;  // the prefix itself is a member, after s
+    doc[std::string("zz-unrelated")] = 33;
+    const char* from = aliased ? base : fresh.get();
+    // model
+    std::vector<Member> m;
+    if (keyDoc) {
+      m.push_back({s, 11});
+      if (ac.use == AU_LOOKUP_WITH_PREFIX && !full) m.push_back({p, 22});
+      m.push_back({"zz-unrelated", 33});
+    }
+    std::string r;
+    switch (ac.use) {
+      case AU_LOOKUP:
+      case AU_LOOKUP_WITH_PREFIX: {
+        withSizedOperand(ac.kind, from, ac.n, [&](auto& x) {
+          r += intOrNull(doc[x]) + ",";
+          r += intOrNull(static_cast<const JsonDocument&>(doc)[x]) + ",";
+          r += intOrNull(doc.as<JsonObjectConst>()[x]) + ",";
+          r += intOrNull(doc.as<JsonVariantConst>()[x]) + ",";
+          r += doc.containsKey(x) ? "1," : "0,";
+          r += doc[x].template is<int>() ? "1," : "0,";
+        });
+        int at = modelFind(m, p);
+        std::string v = at < 0 ? "" : std::to_string(m[size_t(at)].value);
+        std::string want = at < 0 ? "?,?,?,?,0,0," : v + "," + v + "," + v + "," + v + ",1,1,";
+        std::string got = r;
+        if (at < 0) {  // unbound and null both mean absent
+          got.clear();
+          size_t i = 0;
+          for (int f = 0; f < 4; f++) { size_t j = r.find(',', i); std::string e = r.substr(i, j - i); got += (e == "U" || e == "null") ? "?," : e + ","; i = j + 1; }
+          got += r.substr(i);
+        }
+        if (got != want) E.problem("lookup", "lookups with the " + std::to_string(ac.n) + "-byte operand answered " + r + ", expected " + want);
+        E.obs += "res=" + r + ";";
+        // removal through the same operand
+        withSizedOperand(ac.kind, from, ac.n, [&](auto& x) { doc.remove(x); });
+        if (at >= 0) m.erase(m.begin() + at);
+        break;
+      }
+      case AU_INSERT: {
+        withSizedOperand(ac.kind, from, ac.n, [&](auto& x) { doc[x] = 2; });
+        int at = modelFind(m, p);
+        if (at >= 0) m[size_t(at)].value = 2; else m.push_back({p, 2});
+        break;
+      }
+      case AU_VALUE: {
+        bool ok = false;
+        withSizedOperand(ac.kind, from, ac.n, [&](auto& x) { ok = doc["b"].set(x); });
+        E.obs += ok ? "ok=1;" : "ok=0;";
+        if (!ok) E.problem("stored-bytes", "set() reported failure");
+        Found w{{true, "a"}, {false, s}, {true, "zz-unrelated"}, {true, "b"}, {false, p}};
+        expectStrings(E, doc, w);
+        break;
+      }
+      case AU_COMPARE: {
+        withSizedOperand(ac.kind, from, ac.n, [&](auto& x) {
+          JsonVariantConst cv = doc["a"];
+          HXS_CMP12(r, cv, x);
+          r += '/';
+          HXS_CMP12(r, doc["a"], x);
+        });
+        E.obs += "cmp=" + r + ";";
+        const char* wantEq = full ? "10" : "01";
+        for (size_t b : {size_t(0), size_t(6), size_t(13), size_t(19)})
+          if (r.compare(b, 2, wantEq) != 0) E.problem("compare-eq", "== / != answered " + r.substr(b, 2) + " at position " + std::to_string(b) + " of " + r);
+        break;
+      }
+      default: break;
+    }
+    if (keyDoc) {
+      Found f;
+      for (auto& e : m) f.emplace_back(true, e.key);
+      expectStrings(E, doc, f, ac.use == AU_INSERT ? "stored-bytes" : "lookup");
+      for (auto& e : m)
+        if (doc[e.key] != e.value) E.problem(ac.use == AU_INSERT ? "stored-bytes" : "lookup", "member " + vis(compact(e.key)) + " does not hold " + std::to_string(e.value));
+    }
+    observeDoc(E, doc, "doc");
+    E.outcome = full ? "whole" : (ac.n == 0 ? "empty-prefix" : "proper-prefix");
+  }
+  ledgerEnd(E, A);
+  return {E.obs, E.problems, E.outcome};
+}
+
+inline void phaseC(Ctx& C, const std::vector<int>& strings) {
+  const auto& S = alphabet();
+  for (int si : strings) {
+    const std::string& s = S[size_t(si)].bytes;
+    if (s.size() < 2 || s.size() > kMaxLen) continue;
+    std::vector<size_t> lens;
+    if (s.size() <= 64) for (size_t n = 0; n <= s.size(); n++) lens.push_back(n);
+    else lens = {0, 1, 2, 31, 32, s.size() / 2, s.size() - 2, s.size() - 1, s.size()};
+    for (size_t n : lens)
+      for (Kind k : {StringView, JsCopied})
+        for (int w = 0; w < NWHERE; w++)
+          for (int u = 0; u < NALIASUSES; u++) {
+            if (w == W_HELD && S[size_t(si)].hasNul) continue;  // a by-address holder cannot express the NUL string
+            if (!C.take()) continue;
+            if (C.expired()) return;
+            AliasCase ac{si, n, k, AliasWhere(w), AliasUse(u)};
+            std::string key = "str:s=" + S[size_t(si)].name + "|use=alias." + kAliasUseName[u] + "|n=" + std::to_string(n) + "|kinds=" +
+                              kKindName[k] + ".fresh~" + kKindName[k] + "." + kWhereName[w];
+            C.begin(key);
+            RunResult ref = runAlias(ac, false), ali = runAlias(ac, true);
+            reportProblems(C, ref.problems, "fresh-buffer");
+            reportProblems(C, ali.problems, "aliasing");
+            if (ref.obs != ali.obs) C.failKey(key + "|c=differential", "differential", "operand at the address of a known buffer vs. at a fresh address: " + firstDiff(ref.obs, ali.obs));
+            C.nontrivial();
+            C.outcome(std::string("alias.") + kAliasUseName[u] + ":" + kWhereName[w] + ":" + ali.outcome);
+            C.end();
+          }
+  }
+}
+
 // ------------------------------------------------------------------------------------------- entry point
 inline void run(Ctx& C) {
   const bool T = C.thorough();
@@ -1191,7 +1371,7 @@ inline void run(Ctx& C) {
     strings.clear();
     for (int i = 0; i < S_COUNT; i++) if (alphabet()[size_t(i)].name == only) strings.push_back(i);
   }
-  std::string phase = C.opt("phase", "AB");
+  std::string phase = C.opt("phase", "ABC");
   if (phase.find('A') != std::string::npos) {
     if (T) {
       for (int i = 0; i < S_COUNT; i++) operands.push_back(i);
@@ -1205,6 +1385,9 @@ inline void run(Ctx& C) {
       }
     }
   }
+#if HXS_IN(5)
+  if (phase.find('C') != std::string::npos) phaseC(C, strings);
+#endif
 #if HXS_IN(6)
   if (phase.find('B') != std::string::npos) {
     std::vector<int> rots;
@@ -1218,7 +1401,10 @@ inline void run(Ctx& C) {
           " x 12 source kinds {literal,const char*,char*,char[N],std::string,string_view,JsonString Copied,JsonString(p,Linked),"
           "JsonString(p),JsonString(p,strlen),Arduino String,flash} x 47 uses over six jobs (14 value, 10 key, 16 lookup x 4 populations, "
           "12 comparison operators x 2 sides on JsonVariantConst and MemberProxy (4 on JsonVariant, null, integer and unbound operands) x operand set, 6 copy paths) x {plain, source overwritten, source destroyed}; "
-          "sharing grid: " + (T ? "2..3" : "2") + " users x 5 roles x 9 mutations x " + (T ? "35 kind rotations (7 for the 65535-byte string)" : "2 kind rotations"));
+          "aliasing operands: every s with |s| >= 2 x every prefix length 0..|s| (9 boundary lengths for the 65535-byte string) x "
+          "{string_view, JsonString Copied} x view into {buffer held by address, pooled node, source of the storing operand} x "
+          "{lookup, lookup with the prefix present, insertion key, value source, comparison operand}, each against the same history with "
+          "the operand at a fresh address; sharing grid: " + (T ? "2..3" : "2") + " users x 5 roles x 9 mutations x " + (T ? "35 kind rotations (7 for the 65535-byte string)" : "2 kind rotations"));
 }
 
 }  // namespace hx_strings
